@@ -83,7 +83,23 @@ META = {
         "operands are visible; the observer of an added use is a test.op and is only placed in function / scf / affine / "
         "test regions or in blocks where the corpus itself has a test or unregistered operation, never in the body of a "
         "domain-specific operation). Members of these families must also be "
-        "SSA-dominance-valid (Lean ssa_dom, see text). Any exception raised "
+        "SSA-dominance-valid (Lean ssa_dom, see text). ORDER of the operations of a block (c17_gen.reorder): the corpus shows "
+        "every pass definition-before-use order with the rewritten operation somewhere in the middle of its block; what is "
+        "guarded by that is 'one walk over the block suffices' and 'the rewritten operation has a predecessor / a successor in "
+        "the list'. (a) order variants of the corpus modules that name a pass (family mutant, edits order:*): the kinds of "
+        "operation the pass removes or replaces on the module as written are determined by running it; then one such operation "
+        "is moved to the first / to the last movable position of its block (enumerated: one variant per rewritten operation, "
+        "those that can be rewritten without rewriting a producer first), or the movable operations of one / of every block "
+        "are shuffled / reversed. These variants are STRICT: only the body of a builtin.module (a graph region: no order is "
+        "required there by MLIR either) is re-ordered freely, every other block only within the orders that keep each "
+        "definition before its users, so the variant is as dominance-valid as the corpus module. (b) directed-order = programs "
+        "of directed-typed / directed-cfg and of TypedGen.program_graph (the same arith/scf statements directly in a module "
+        "body, half of them in a module nested in the top-level one) with blocks shuffled / reversed / one operation moved, "
+        "NOT strict: a user may precede its producer inside one block of a function or scf body too. xDSL's parser resolves "
+        "such forward references and verify() accepts them (it has no dominance check), so for this family 'valid input' "
+        "is what the implementation accepts (input_ok) plus the cross-block dominance obligations; the in-block order is "
+        "deliberately not demanded. It goes to the dialect-independent optimisations (canonicalize, dce, cse) in full and "
+        "as probes to every other pass. Any exception raised "
         "by the pass (incl. SystemExit, RecursionError) = reported failure, counted per class; CPU-time-outs "
         "(ITIMER_VIRTUAL) are counted, not judged. 'Parses back' means the parser accepts the printed text; the "
         "re-parsed module is not compared (that is C04/C05). One failure is reported per pair: a structural "
@@ -102,14 +118,18 @@ META = {
         "validated; for every registered pass a seeded sample of the valid ones (half from files whose RUN lines or path "
         "name the pass, half uniform), "
         "default options plus generated option assignments / schedule_space instances, ~2000 pairs; plus, per pass, 3-12 "
-        "mutants of the corpus modules that name it (~250 pairs); plus 150 directed-cfg and 150 directed-typed modules, all "
+        "mutants of the corpus modules that name it (~250 pairs) and up to 6 order variants of one of them (~500 pairs); the "
+        "quick sample of corpus chunks is stratified (up to 3 chunks of the files naming each pass are always in it); plus "
+        "150 directed-cfg, 150 directed-typed and 100 directed-order modules, all "
         "of them for the passes they are written for (the dialect-independent optimisations: cfg -> canonicalize, dce; typed "
-        "-> canonicalize, cse), one "
+        "-> canonicalize, cse; order -> canonicalize, dce, cse), one "
         "probe module per family for every other pass and 6 more for each (pass, family) whose probe changed the module in "
         "another way than dce does (every pattern walker deletes trivially dead operations) "
-        "(~1300 pairs). All pairs are shuffled, so a budget cut on a loaded machine removes a random part. Thorough: the "
+        "(~1300 pairs). Pairs run in an order that spreads every (pass, kind of input) group evenly over the run, the first "
+        "pair of every group first, so a budget cut on a loaded machine removes the same share of every group; the minimum "
+        "slice of the pairs phase is stretched by the machine load (loadavg / cores, at most 6x). Thorough: the "
         "full cross product default-instance x every valid corpus module + generated modules, plus option "
-        "assignments and schedule_space instances on a sample, 12-36 mutants per pass, 1200 modules per directed family "
+        "assignments and schedule_space instances on a sample, 12-36 mutants and up to 16 order variants per pass, 1200 (order: 800) modules per directed family "
         "(all for the passes they are written for, 3 probes + 100 per responsive (pass, family)), as far as the budget "
         "allows (pairs not reached are counted). Non-trivial = the pass succeeded and changed the module (generic print differs); distinct = "
         "distinct (pass, options, module)."
@@ -184,12 +204,14 @@ def generated_modules(rng: random.Random, n: int) -> list[tuple[str, int, str]]:
 # file naming a pass in its RUN line): the dialect-independent optimisations, which have to be right on any
 # operation, registered or not — canonicalize (the canonicalization rules of every operation + region
 # simplification), dce (liveness + block reachability), cse (scoped value numbering)
-DIRECTED = {"cfg": G.CfgGen, "typed": G.TypedGen}
-DIRECTED_FOR = {"cfg": ["canonicalize", "dce"], "typed": ["canonicalize", "cse"]}
+DIRECTED = {"cfg": G.CfgGen, "typed": G.TypedGen, "order": G.OrderGen}
+DIRECTED_FOR = {"cfg": ["canonicalize", "dce"], "typed": ["canonicalize", "cse"], "order": ["canonicalize", "dce", "cse"]}
+# members of the `order` family are re-ordered (c17_gen.reorder) where they are validated; (file, chunk) -> seed
+_ORDER_SEED: dict[tuple[str, int], int] = {}
 
 
-# minimal failing inputs of repaired defects (known_findings.json, status "fixed"): always paired with their pass, so
-# that the defect is re-found if it returns.  Detection of the classes above never depends on this list.
+# minimal failing inputs of repaired defects (known_findings.json, status "fixed", or "known" with a pending fix patch):
+# always paired with their pass, so that the defect is re-found if it returns.  Detection of the classes above never depends on this list.
 REGRESSION: list[tuple[str, str]] = [
     ("scf-for-loop-flatten", """builtin.module {
   func.func @f(%init: f32) -> f32 {
@@ -208,6 +230,48 @@ REGRESSION: list[tuple[str, str]] = [
   }
 }
 """),
+    ("convert-ptr-type-offsets", """%o = ptr_xdsl.type_offset f32 : i32
+%c = arith.constant 3 : i32
+%s = arith.muli %o, %c : i32
+"test.op"(%s) : (i32) -> ()
+"""),
+    ("convert-linalg-to-loops", """func.func @f(%m : memref<4xindex>) {
+  linalg.generic {indexing_maps = [affine_map<(d0) -> (d0)>], iterator_types = ["parallel"]} outs(%m : memref<4xindex>) {
+  ^bb0(%o : index):
+    %i = linalg.index 0 : index
+    linalg.yield %i : index
+  }
+  func.return
+}
+"""),
+    ("loop-hoist-memref", """func.func public @f(%arg0: memref<8xf64>, %arg2: memref<f64>, %x : f64) {
+  %c0 = arith.constant 0 : index
+  %c8 = arith.constant 8 : index
+  %c1 = arith.constant 1 : index
+  %r = scf.for %arg3 = %c0 to %c8 step %c1 iter_args(%acc = %x) -> (f64) {
+    %0 = memref.load %arg0[%arg3] : memref<8xf64>
+    %2 = memref.load %arg2[] : memref<f64>
+    %4 = arith.addf %2, %0 : f64
+    memref.store %4, %arg2[] : memref<f64>
+    scf.yield %acc : f64
+  }
+  func.return
+}
+"""),
+    ("loop-hoist-memref", """func.func public @f(%arg0: memref<8xf64>, %arg2: memref<4xf64>) {
+  %c0 = arith.constant 0 : index
+  %c8 = arith.constant 8 : index
+  %c1 = arith.constant 1 : index
+  scf.for %arg3 = %c0 to %c8 step %c1 {
+    %k = arith.constant 2 : index
+    %0 = memref.load %arg0[%arg3] : memref<8xf64>
+    %2 = memref.load %arg2[%k] : memref<4xf64>
+    %4 = arith.addf %2, %0 : f64
+    memref.store %4, %arg2[%k] : memref<4xf64>
+  }
+  func.return
+}
+"""),
 ]
 
 
@@ -215,8 +279,10 @@ def directed_modules(rng: random.Random, n: int) -> list[tuple[str, int, str]]:
     out = []
     for fam, cls in DIRECTED.items():
         g = cls(rng)
-        for k in range(n):
+        for k in range(n if fam != "order" else (2 * n) // 3):
             out.append((f"<generated:{fam}>", k, g.program()))
+            if fam == "order":
+                _ORDER_SEED[(out[-1][0], k)] = rng.randrange(1 << 30)
     return out
 
 
@@ -229,45 +295,74 @@ def family(m: dict[str, Any]) -> str:
     return "corpus" if not f.startswith("<generated") else ("generated" if f == "<generated>" else f[1:-1].replace("generated:", "directed-"))
 
 
-def _mutate_validate(job: tuple[int, int, int]) -> tuple[Any, ...]:
-    mi, seed, nmut = job
-    text, edits = G.mutate(_MODS[mi]["text"], seed, nmut, I.parse_module)
-    if text is None:
-        return mi, "no-edit-applies", 0, "", None, edits, None
-    st, n, gen = I.input_ok(text)
-    return mi, st, n, gen, text, edits, (_ssa(text) if st == "ok" else None)
+# the order variants a pass gets of the modules written for it, by job number: the operation it rewrites first in its
+# block, the same block(s) in another order, the operation it rewrites last (before the terminator)
+# (modes, pick): `first` variants enumerate the rewritten operations of ONE module (same seed, pick = 0, 1, ...)
+ORDER_PLAN: list[tuple[list[str], int | None]] = [
+    (["first"], 0), (["permute", "reverse", "permute-all"], None), (["first"], 1), (["before-last"], 0), (["first"], 2),
+    (["first"], 3), (["permute-all", "permute"], None), (["before-last"], 1), (["first"], 4), (["first"], 5),
+    (["reverse", "permute"], None), (["before-last"], 2), (["first"], 6), (["first"], 7), (["permute-all"], None), (["before-last"], 3)]
+
+
+def _mutate_validate(job: tuple[Any, ...]) -> list[tuple[Any, ...]]:
+    mi, seed, nmut, order = job[:4]
+    if order is None:
+        cands = [G.mutate(_MODS[mi]["text"], seed, nmut, I.parse_module)]
+    else:
+        # re-ordered variants of a module written for the pass `order[0]`: the operations of interest are the kinds
+        # the pass removes / replaces on the module as written
+        kinds = I.rewritten_kinds(_PASSES[order[0]], _MODS[mi]["text"], TLIMIT_SMALL) if order[0] in _PASSES else []
+        cands = []
+        for j in range(order[1]):
+            modes, pick = ORDER_PLAN[j % len(ORDER_PLAN)]
+            cands.append(G.reorder(_MODS[mi]["text"], seed + (0 if pick is not None else 1 + j), I.parse_module, modes, kinds, 1, pick,
+                                   strict=True))
+    out: list[tuple[Any, ...]] = []
+    seen: set[str] = set()
+    for text, edits in cands:
+        if text is None or text in seen:
+            out.append((mi, "no-edit-applies", 0, "", None, edits, None, job))
+            continue
+        seen.add(text)
+        st, n, gen = I.input_ok(text)
+        out.append((mi, st, n, gen, text, edits, (_ssa(text) if st == "ok" else None), job))
+    return out
 
 
 def add_mutants(ctx: core.Ctx, mods: list[dict[str, Any]], aff: dict[str, list[int]], workers: int, base: int,
-                extra_cap: int) -> dict[str, list[int]]:
+                extra_cap: int, n_order: int = 0) -> dict[str, list[int]]:
     """near misses of the modules written for a pass (c17_gen.mutate); returns pass -> indices of its mutants in mods"""
     global _MODS
     rng = ctx.rng
-    jobs: list[tuple[int, int, int]] = []
-    owner: list[str] = []
+    jobs: list[tuple[Any, ...]] = []
     for n in sorted(aff):
         src = [i for i in aff[n] if mods[i]["ops"] <= 250 and family(mods[i]) == "corpus"]
         if not src:
             continue
         files = len({mods[i]["file"] for i in src})
         for _ in range(base + min(extra_cap, files // 3)):
-            jobs.append((rng.choice(src), rng.randrange(1 << 30), rng.randint(1, 4)))
-            owner.append(n)
+            jobs.append((rng.choice(src), rng.randrange(1 << 30), rng.randint(1, 4), None, n))
+        # the same modules with their blocks in another order / the rewritten operation at the ends of its block
+        # (one module and one seed per pass: the jobs enumerate its rewritten operations, see ORDER_PLAN)
+        osrc = [i for i in src if mods[i]["ops"] <= 120] or src
+        if n_order:
+            jobs.append((rng.choice(osrc), rng.randrange(1 << 30), 1, (n, n_order)))
     _MODS = mods
     with mp.get_context("fork").Pool(workers, initializer=_init_worker) as pool:
-        res = pool.map(_mutate_validate, jobs, chunksize=8)
+        res = [r for rs in pool.map(_mutate_validate, jobs, chunksize=4) for r in rs]
     out: dict[str, list[int]] = defaultdict(list)
     # a mutant must be SSA-valid; so must the module it was made from (the edits only add dominated uses, so a
     # failure here means the corpus module itself was not, or the edit logic is wrong: excluded and counted)
     ssa = ssa_verdicts(ctx, [r[6] for r in res])
-    for (mi, st, nops, gen, text, edits, _), sv, job, n in zip(res, ssa, jobs, owner):
+    for (mi, st, nops, gen, text, edits, _, job), sv in zip(res, ssa):
+        n = job[4] if job[3] is None else job[3][0]
         if st == "ok" and sv != "ok":
             st = "not-ssa-valid"
-        ctx.count(f"mutant.input.{st}")
+        ctx.count(f"mutant.input.{st}" if job[3] is None else f"mutant.order.input.{st}")
         if st != "ok":
             continue
         for e in edits:
-            ctx.count(f"mutant.edit.{e}")
+            ctx.count("mutant.edit." + ":".join(e.split(":")[:2]))
         mods.append({"file": mods[mi]["file"], "chunk": mods[mi]["chunk"], "text": text, "ops": nops, "generic": gen,
                      "mutant": {"seed": job[1], "edits": edits}})
         out[n].append(len(mods) - 1)
@@ -275,19 +370,29 @@ def add_mutants(ctx: core.Ctx, mods: list[dict[str, Any]], aff: dict[str, list[i
     return out
 
 
-def _ssa(text: str) -> tuple[list[str], list[str]]:
+def _ssa(text: str, in_block_order: bool = True) -> tuple[list[str], list[str]]:
     try:
         with I.quiet(), I.cpu_guard(10.0):
-            return I.ssa_obligations(I.parse_module(text))
+            return I.ssa_obligations(I.parse_module(text), in_block_order)
     except BaseException as e:  # noqa: BLE001
         return [], [f"walk raised {type(e).__name__}"]
 
 
-def _validate(i: int) -> tuple[int, str, int, str, Any]:
-    st, n, gen = I.input_ok(_CHUNKS[i][2])
-    # generated modules: SSA dominance is part of validity and is not checked by module.verify()
-    ssa = _ssa(_CHUNKS[i][2]) if st == "ok" and _CHUNKS[i][0].startswith(("<generated:", "<regression:")) else None
-    return i, st, n, gen, ssa
+def _validate(i: int) -> tuple[int, str, int, str, Any, str | None]:
+    file, chunk, text = _CHUNKS[i]
+    new = None
+    if file == "<generated:order>":
+        # the base program must itself be a valid input; then its blocks are re-ordered
+        seed = _ORDER_SEED.get((file, chunk), chunk)
+        new, edits = G.reorder(text, seed, I.parse_module, None, None, 1 + seed % 2)
+        if new is None:
+            return i, "no-edit-applies", 0, "", None, None
+        text = new
+    st, n, gen = I.input_ok(text)
+    # generated modules: SSA dominance is part of validity and is not checked by module.verify(); the order of the
+    # operations of one block is not (order family: deliberately not)
+    ssa = _ssa(text, new is None) if st == "ok" and file.startswith(("<generated:", "<regression:")) else None
+    return i, st, n, gen, ssa, new
 
 
 def ssa_verdicts(ctx: core.Ctx, items: list[tuple[list[str], list[str]] | None]) -> list[str | None]:
@@ -363,24 +468,28 @@ def _work(batch: list[tuple[int, str, dict[str, Any], int]]) -> list[dict[str, A
 
 
 def run_tasks(ctx: core.Ctx, tasks: list[tuple[int, str, dict[str, Any], int]], workers: int, deadline: float,
-              batch: int = 24) -> tuple[list[dict[str, Any]], int]:
-    """returns (results in task order for the batches that were run, number of tasks not reached)"""
+              batch: int = 24, min_results: int = 0, hard_deadline: float = 0.0) -> tuple[list[dict[str, Any]], int]:
+    """returns (results in task order for the batches that were run, number of tasks not reached).  The run stops at
+    `deadline`, except that the first `min_results` pairs are waited for until `hard_deadline` (on a loaded machine the
+    wall-clock budget is gone before the first pair of every (pass, kind of input) group has run)"""
     batches = [tasks[i:i + batch] for i in range(0, len(tasks), batch)]
     results: list[dict[str, Any]] = []
     with mp.get_context("fork").Pool(workers, initializer=_init_worker) as pool:
         # unordered: one slow batch (a pass that runs into the CPU guard several times) must not keep the
         # finished ones from being collected before the deadline; every result names its task (`k`)
         it = pool.imap_unordered(_work, batches)
-        for _ in batches:
-            left = deadline - time.time()
-            if left <= 0:
+        got = 0
+        while got < len(batches):
+            now = time.time()
+            limit = deadline if len(results) >= min_results else max(deadline, hard_deadline)
+            if now >= limit:
                 pool.terminate()
                 break
             try:
-                results.extend(it.next(timeout=max(1.0, left)))
+                results.extend(it.next(timeout=max(1.0, min(limit - now, 20.0))))
+                got += 1
             except mp.TimeoutError:
-                pool.terminate()
-                break
+                continue
     results.sort(key=lambda r: r["k"])
     return results, len(tasks) - len(results)
 
@@ -389,18 +498,38 @@ def run_tasks(ctx: core.Ctx, tasks: list[tuple[int, str, dict[str, Any], int]], 
 # affinity: which corpus files were written for which pass
 # ---------------------------------------------------------------------------------------------
 
+_FILE_TOKS: dict[str, set[str]] = {}
+
+
+def file_tokens(file: str) -> set[str]:
+    toks = _FILE_TOKS.get(file)
+    if toks is None:
+        try:
+            head = (core.REPO / file).read_text()
+        except Exception:  # noqa: BLE001
+            head = ""
+        runs = " ".join(l for l in head.splitlines() if "RUN:" in l)
+        toks = _FILE_TOKS[file] = (set(re.findall(r"[a-z][a-z0-9-]+", runs))
+                                   | set(re.findall(r"[a-z][a-z0-9-]+", file.replace("_", "-"))))
+    return toks
+
+
+def chunk_affinity(chunks: list[tuple[str, int, str]], names: list[str]) -> dict[str, list[int]]:
+    """pass -> indices of the corpus chunks of the files written for it (before validation)"""
+    out: dict[str, list[int]] = {}
+    ns = set(names)
+    for i, (f, _, _) in enumerate(chunks):
+        for n in file_tokens(f) & ns:
+            out.setdefault(n, []).append(i)
+    return out
+
+
 def affinity(mods: list[dict[str, Any]], names: list[str]) -> dict[str, list[int]]:
     by_file: dict[str, set[str]] = {}
     for m in mods:
         if m["file"] in by_file or m["file"].startswith("<"):
             continue
-        try:
-            head = (core.REPO / m["file"]).read_text()
-        except Exception:  # noqa: BLE001
-            head = ""
-        runs = " ".join(l for l in head.splitlines() if "RUN:" in l)
-        toks = set(re.findall(r"[a-z][a-z0-9-]+", runs)) | set(re.findall(r"[a-z][a-z0-9-]+", m["file"].replace("_", "-")))
-        by_file[m["file"]] = toks
+        by_file[m["file"]] = file_tokens(m["file"])
     out: dict[str, list[int]] = {n: [] for n in names}
     for i, m in enumerate(mods):
         toks = by_file.get(m["file"], set())
@@ -509,7 +638,8 @@ def shrink_module(name: str, options: dict[str, Any], text: str, want: tuple[str
 # the run
 # ---------------------------------------------------------------------------------------------
 
-def build_modules(ctx: core.Ctx, workers: int, n_generated: int, sample: int | None = None, n_directed: int = 0) -> list[dict[str, Any]]:
+def build_modules(ctx: core.Ctx, workers: int, n_generated: int, sample: int | None = None, n_directed: int = 0,
+                  names: list[str] | None = None) -> list[dict[str, Any]]:
     global _CHUNKS, _MODS
     chunks = corpus_chunks()
     ctx.count("corpus.chunks", len(chunks))
@@ -517,8 +647,17 @@ def build_modules(ctx: core.Ctx, workers: int, n_generated: int, sample: int | N
     gen += directed_modules(ctx.rng, n_directed)
     gen += [(f"<regression:{n}>", i, t) for i, (n, t) in enumerate(REGRESSION)]
     if sample is not None and sample < len(chunks):
-        # quick tier: a seeded sample of the chunks is validated (validation costs as much as a few passes)
-        keep = sorted(ctx.rng.sample(range(len(chunks)), sample))
+        # quick tier: a seeded sample of the chunks is validated (validation costs as much as a few passes).
+        # Stratified: every pass keeps up to 3 chunks of the files written for it (RUN line / path names it) — the
+        # inputs its mutants and order variants are made from; the rest of the sample is uniform
+        by_pass = chunk_affinity(chunks, names or [])
+        forced: set[int] = set()
+        for n in sorted(by_pass):
+            own = [i for i in by_pass[n] if len(chunks[i][2]) <= 12000] or by_pass[n]
+            forced.update(ctx.rng.sample(own, min(3, len(own))))
+        ctx.count("corpus.chunks_sampled_for_their_pass", len(forced))
+        rest = [i for i in range(len(chunks)) if i not in forced]
+        keep = sorted(forced | set(ctx.rng.sample(rest, max(0, min(len(rest), sample - len(forced))))))
         chunks = [chunks[i] for i in keep]
         ctx.count("corpus.chunks_sampled", len(chunks))
     ctx.count("generated.modules", len(gen))
@@ -527,13 +666,14 @@ def build_modules(ctx: core.Ctx, workers: int, n_generated: int, sample: int | N
         res = pool.map(_validate, range(len(_CHUNKS)), chunksize=16)
     mods = []
     ssa = ssa_verdicts(ctx, [r[4] for r in res])
-    for (i, st, n, g, _), sv in zip(res, ssa):
+    for (i, st, n, g, _, new), sv in zip(res, ssa):
         fam = family({"file": _CHUNKS[i][0]})
         if st == "ok" and sv not in (None, "ok"):
             st = "not-ssa-valid"   # would be a defect of the generator, never of xDSL: excluded and counted
         ctx.count(f"{fam}.input.{st}")
         if st == "ok":
-            mods.append({"file": _CHUNKS[i][0], "chunk": _CHUNKS[i][1], "text": _CHUNKS[i][2], "ops": n, "generic": g})
+            mods.append({"file": _CHUNKS[i][0], "chunk": _CHUNKS[i][1], "text": new if new is not None else _CHUNKS[i][2],
+                         "ops": n, "generic": g})
     _MODS = mods
     return mods
 
@@ -552,7 +692,7 @@ def run(ctx: core.Ctx) -> None:
     names = list(_PASSES)
     ctx.count("passes.registered", len(names))
     t = time.time()
-    mods = build_modules(ctx, workers, 40 if quick else 320, 600 if quick else None, 150 if quick else 1200)
+    mods = build_modules(ctx, workers, 40 if quick else 320, 600 if quick else None, 150 if quick else 1200, names)
     timing["validate_inputs"] = round(time.time() - t, 1)
     if not mods:
         raise core.InfraError("no valid input module")
@@ -565,7 +705,7 @@ def run(ctx: core.Ctx) -> None:
     if not base:
         raise core.InfraError("no valid corpus module")
     t = time.time()
-    mutants = add_mutants(ctx, mods, aff, workers, 3 if quick else 12, 9 if quick else 24)
+    mutants = add_mutants(ctx, mods, aff, workers, 3 if quick else 12, 9 if quick else 24, 6 if quick else 16)
     timing["mutants"] = round(time.time() - t, 1)
     nmod = len(mods)
     small = [i for i in base if mods[i]["ops"] <= 60] or base
@@ -591,7 +731,20 @@ def run(ctx: core.Ctx) -> None:
 
     tasks: list[tuple[int, str, dict[str, Any], int]] = []
 
+    group_size: Counter[tuple[str, str]] = Counter()
+    rounds: list[int] = []
+    cats: list[str] = []
+
     def add(n: str, spec: dict[str, Any], mi: int) -> None:
+        # round = how many pairs of the same pass and the same kind of input were planned before this one
+        m = mods[mi]
+        cat = ("probe" if "probe" in spec else "schedule" if spec.get("from_schedule_space") else
+               "order" if m.get("mutant", {}).get("edits", [""])[0].startswith("order") else family(m))
+        if spec["options"] and cat != "schedule":
+            cat += "+options"
+        cats.append(cat)
+        rounds.append(group_size[(n, cat)])
+        group_size[(n, cat)] += 1
         tasks.append((len(tasks), n, spec, mi))
 
     if quick:
@@ -622,7 +775,8 @@ def run(ctx: core.Ctx) -> None:
     for n in names:
         for mi in mutants.get(n, []):
             if specs[n]:
-                add(n, specs[n][0] if (len(specs[n]) == 1 or rng.random() < 0.75) else rng.choice(specs[n][1:]), mi)
+                is_order = mods[mi]["mutant"]["edits"][0].startswith("order")
+                add(n, specs[n][0] if (len(specs[n]) == 1 or is_order or rng.random() < 0.75) else rng.choice(specs[n][1:]), mi)
     for mi in by_fam.get("regression", []):
         n = mods[mi]["file"][len("<regression:"):-1]
         if specs.get(n):
@@ -643,10 +797,16 @@ def run(ctx: core.Ctx) -> None:
             else:
                 for mi in rng.sample(pool_f, min(n_probe, len(pool_f))):
                     add(n, {**specs[n][0], "probe": fam}, mi)
-    # shuffle so that a budget cut (thorough tier; quick tier on a loaded machine) removes a random part,
-    # deterministically per seed
-    rng.shuffle(tasks)
-    tasks = [(k, n, s, mi) for k, (_, n, s, mi) in enumerate(tasks)]
+    # order of execution, deterministic per seed: the pairs of every group (pass, kind of input: uniform corpus sample,
+    # corpus files of the pass, option assignments, mutants, order variants, each directed family, probes, regression
+    # inputs) are spread evenly over the run, the first pair of every group first (key = position in the group / size of
+    # the group, ties shuffled).  A budget cut (thorough tier; quick tier on a loaded machine) therefore removes the same
+    # share of every group — more of the same — and never a whole pass or a whole kind of input
+    perm = list(range(len(tasks)))
+    rng.shuffle(perm)
+    gsz = [group_size[(tasks[i][1], cats[i])] for i in range(len(tasks))]
+    perm.sort(key=lambda i: rounds[i] / gsz[i])
+    tasks = [(k, tasks[i][1], tasks[i][2], tasks[i][3]) for k, i in enumerate(perm)]
     # schedule_space instances (computed here: they depend on the module)
     for n in sched_passes:
         cand = list(dict.fromkeys(aff.get(n, []) + [rng.choice(small) for _ in range(6 if quick else 60)]))
@@ -666,10 +826,20 @@ def run(ctx: core.Ctx) -> None:
 
     # under heavy machine load the fixed costs (Lean audit, input validation) can eat the budget: the pairs
     # still get a minimum slice, so that the evidence is never vacuous
-    deadline = max(ctx.t_budget0 + ctx.budget_s - (12 if quick else 60), time.time() + (40 if quick else 300))
+    # (the floor is stretched by the load of the machine: the CPU-time guards of the pairs do not run faster there)
+    try:
+        slow = min(6.0, max(1.0, os.getloadavg()[0] / max(1, os.cpu_count() or 1)))
+    except OSError:
+        slow = 1.0
+    ctx.extra["machine_load_factor"] = round(slow, 2)
+    deadline = max(ctx.t_budget0 + ctx.budget_s - (12 if quick else 60), time.time() + (40 if quick else 300) * slow)
     t = time.time()
     # the second helping (planned from the probes of this phase) keeps a share of the budget
-    results, not_reached = run_tasks(ctx, tasks, workers, deadline - (6 if quick else 150))
+    # every group's first pair and a sixth of the rest are waited for beyond the budget (at most 8 more minutes)
+    n_first = sum(1 for i in range(len(rounds)) if rounds[i] == 0)
+    results, not_reached = run_tasks(ctx, tasks, workers, deadline - (6 if quick else 150), batch=12 if quick else 24,
+                                     min_results=min(len(tasks), n_first + (len(tasks) - n_first) // 6) if quick else 0,
+                                     hard_deadline=time.time() + 480)
     timing["run_pairs"] = round(time.time() - t, 1)
     by_k = {t[0]: t for t in tasks}
     # second helping: a pass that changed a probe module of a directed family gets more of that family
